@@ -26,6 +26,13 @@ func init() {
 type c04Path struct {
 	name string
 	f    func(p s2.Point) bool
+	// ref, when set, is the reference vertex the path draws its crossing segment from: the
+	// path is undefined for the exactly antipodal query point (not an S2 edge)
+	ref *s2.Point
+}
+
+func (pa *c04Path) defined(p s2.Point) bool {
+	return pa.ref == nil || p.Vector != pa.ref.Vector.Mul(-1)
 }
 
 func c04CopyPts(p []s2.Point) []s2.Point { return append([]s2.Point(nil), p...) }
@@ -36,13 +43,13 @@ func c04LoopPaths(pts []s2.Point) (paths []c04Path, loop *s2.Loop) {
 	loop = s2.LoopFromPoints(c04CopyPts(pts))
 	fresh := s2.LoopFromPoints(c04CopyPts(pts)) // never queried through the index before
 	paths = append(paths,
-		c04Path{"Loop.ContainsPoint", loop.ContainsPoint},
-		c04Path{"Loop.bruteForceContainsPoint", func(p s2.Point) bool { return s2.VerifLoopBruteForceContains(fresh, p) }},
-		c04Path{"Loop.index-path", func(p s2.Point) bool { return s2.VerifLoopIndexContains(loop, p) }},
-		c04Path{"containsBruteForce(Loop)", func(p s2.Point) bool { return s2.VerifContainsBruteForce(loop, p) }},
+		c04Path{"Loop.ContainsPoint", loop.ContainsPoint, nil},
+		c04Path{"Loop.bruteForceContainsPoint", func(p s2.Point) bool { return s2.VerifLoopBruteForceContains(fresh, p) }, nil},
+		c04Path{"Loop.index-path", func(p s2.Point) bool { return s2.VerifLoopIndexContains(loop, p) }, nil},
+		c04Path{"containsBruteForce(Loop)", func(p s2.Point) bool { return s2.VerifContainsBruteForce(loop, p) }, nil},
 	)
 	lq := s2.NewContainsPointQuery(s2.VerifLoopIndex(loop), s2.VertexModelSemiOpen)
-	paths = append(paths, c04Path{"ContainsPointQuery(loop index, semi-open)", lq.Contains})
+	paths = append(paths, c04Path{"ContainsPointQuery(loop index, semi-open)", lq.Contains, nil})
 	// the same loop in a separate index, as Loop, LaxLoop and LaxPolygon
 	idx := s2.NewShapeIndex()
 	l2 := s2.LoopFromPoints(c04CopyPts(pts))
@@ -52,11 +59,13 @@ func c04LoopPaths(pts []s2.Point) (paths []c04Path, loop *s2.Loop) {
 	idx.Add(lax)
 	idx.Add(laxp)
 	q := s2.NewContainsPointQuery(idx, s2.VertexModelSemiOpen)
+	// lax shapes anchor their brute force at a vertex of the shape
+	laxRef := lax.ReferencePoint().Point
 	paths = append(paths,
-		c04Path{"ContainsPointQuery.ShapeContains(Loop)", func(p s2.Point) bool { return q.ShapeContains(l2, p) }},
-		c04Path{"ContainsPointQuery.ShapeContains(LaxLoop)", func(p s2.Point) bool { return q.ShapeContains(lax, p) }},
-		c04Path{"ContainsPointQuery.ShapeContains(LaxPolygon)", func(p s2.Point) bool { return q.ShapeContains(laxp, p) }},
-		c04Path{"containsBruteForce(LaxLoop)", func(p s2.Point) bool { return s2.VerifContainsBruteForce(lax, p) }},
+		c04Path{"ContainsPointQuery.ShapeContains(Loop)", func(p s2.Point) bool { return q.ShapeContains(l2, p) }, nil},
+		c04Path{"ContainsPointQuery.ShapeContains(LaxLoop)", func(p s2.Point) bool { return q.ShapeContains(lax, p) }, nil},
+		c04Path{"ContainsPointQuery.ShapeContains(LaxPolygon)", func(p s2.Point) bool { return q.ShapeContains(laxp, p) }, nil},
+		c04Path{"containsBruteForce(LaxLoop)", func(p s2.Point) bool { return s2.VerifContainsBruteForce(lax, p) }, &laxRef},
 	)
 	// a polygon made of the loop
 	poly := s2.PolygonFromLoops([]*s2.Loop{s2.LoopFromPoints(c04CopyPts(pts))})
@@ -67,11 +76,11 @@ func c04LoopPaths(pts []s2.Point) (paths []c04Path, loop *s2.Loop) {
 func c04PolygonPaths(poly *s2.Polygon, suffix string) []c04Path {
 	pq := s2.NewContainsPointQuery(s2.VerifPolygonIndex(poly), s2.VertexModelSemiOpen)
 	return []c04Path{
-		{"Polygon.ContainsPoint" + suffix, poly.ContainsPoint},
-		{"Polygon.brute-force" + suffix, func(p s2.Point) bool { return s2.VerifPolygonBruteForceContains(poly, p) }},
-		{"Polygon.index-path" + suffix, func(p s2.Point) bool { return s2.VerifPolygonIndexContains(poly, p) }},
-		{"containsBruteForce(Polygon)" + suffix, func(p s2.Point) bool { return s2.VerifContainsBruteForce(poly, p) }},
-		{"ContainsPointQuery(polygon index, semi-open)" + suffix, pq.Contains},
+		{"Polygon.ContainsPoint" + suffix, poly.ContainsPoint, nil},
+		{"Polygon.brute-force" + suffix, func(p s2.Point) bool { return s2.VerifPolygonBruteForceContains(poly, p) }, nil},
+		{"Polygon.index-path" + suffix, func(p s2.Point) bool { return s2.VerifPolygonIndexContains(poly, p) }, nil},
+		{"containsBruteForce(Polygon)" + suffix, func(p s2.Point) bool { return s2.VerifContainsBruteForce(poly, p) }, nil},
+		{"ContainsPointQuery(polygon index, semi-open)" + suffix, pq.Contains, nil},
 	}
 }
 
@@ -80,6 +89,10 @@ func c04PolygonPaths(poly *s2.Polygon, suffix string) []c04Path {
 func c04Agree(o *Out, op string, paths []c04Path, p s2.Point, want string, what func() string) bool {
 	ref := paths[0].f(p)
 	for _, pa := range paths[1:] {
+		if !pa.defined(p) {
+			o.Count("path_undefined_antipodal_reference")
+			continue
+		}
 		if g := pa.f(p); g != ref {
 			o.Fail(op+"/paths-disagree/"+pa.name, "%s = %v but %s = %v at %s", pa.name, g, paths[0].name, ref, what())
 		}
@@ -125,11 +138,11 @@ func opC04Loop(raw json.RawMessage, o *Out) {
 	inv.Invert()
 	rev := s2.LoopFromPoints(w2Rev(pts))
 	invPaths := []c04Path{
-		{"Invert().ContainsPoint", inv.ContainsPoint},
-		{"Invert().index-path", func(p s2.Point) bool { return s2.VerifLoopIndexContains(inv, p) }},
-		{"Invert().brute-force", func(p s2.Point) bool { return s2.VerifLoopBruteForceContains(inv, p) }},
-		{"reversed-loop.ContainsPoint", rev.ContainsPoint},
-		{"reversed-loop.index-path", func(p s2.Point) bool { return s2.VerifLoopIndexContains(rev, p) }},
+		{"Invert().ContainsPoint", inv.ContainsPoint, nil},
+		{"Invert().index-path", func(p s2.Point) bool { return s2.VerifLoopIndexContains(inv, p) }, nil},
+		{"Invert().brute-force", func(p s2.Point) bool { return s2.VerifLoopBruteForceContains(inv, p) }, nil},
+		{"reversed-loop.ContainsPoint", rev.ContainsPoint, nil},
+		{"reversed-loop.index-path", func(p s2.Point) bool { return s2.VerifLoopIndexContains(rev, p) }, nil},
 	}
 	vm := []*s2.ContainsPointQuery{
 		s2.NewContainsPointQuery(s2.VerifLoopIndex(loop), s2.VertexModelOpen),
@@ -279,8 +292,8 @@ func opC04Grid(raw json.RawMessage, o *Out) {
 		idx.Add(ob.shape)
 		q := s2.NewContainsPointQuery(idx, s2.VertexModelSemiOpen)
 		paths = append(paths,
-			c04Path{"ContainsPointQuery(LaxPolygon)", q.Contains},
-			c04Path{"containsBruteForce(LaxPolygon)", func(p s2.Point) bool { return s2.VerifContainsBruteForce(ob.shape, p) }})
+			c04Path{"ContainsPointQuery(LaxPolygon)", q.Contains, nil},
+			c04Path{"containsBruteForce(LaxPolygon)", func(p s2.Point) bool { return s2.VerifContainsBruteForce(ob.shape, p) }, nil})
 	}
 	o.nontrivial = nv > 32 || len(loops) > 1
 	o.sample = map[string]any{"op": "c04grid", "g": c.G, "face": sh.Face, "step": sh.Step, "pieces": sh.Pcs, "vertices": nv}
@@ -320,11 +333,11 @@ func opC04Grid(raw json.RawMessage, o *Out) {
 		inv.Invert()
 		rev := s2.LoopFromPoints(w2Rev(loops[0]))
 		comp = append(comp,
-			c04Path{"Loop.Invert().ContainsPoint", inv.ContainsPoint},
-			c04Path{"Loop.Invert().index-path", func(p s2.Point) bool { return s2.VerifLoopIndexContains(inv, p) }},
-			c04Path{"Loop.Invert().brute-force", func(p s2.Point) bool { return s2.VerifLoopBruteForceContains(inv, p) }},
-			c04Path{"reversed-loop.ContainsPoint", rev.ContainsPoint},
-			c04Path{"reversed-loop.brute-force", func(p s2.Point) bool { return s2.VerifLoopBruteForceContains(rev, p) }})
+			c04Path{"Loop.Invert().ContainsPoint", inv.ContainsPoint, nil},
+			c04Path{"Loop.Invert().index-path", func(p s2.Point) bool { return s2.VerifLoopIndexContains(inv, p) }, nil},
+			c04Path{"Loop.Invert().brute-force", func(p s2.Point) bool { return s2.VerifLoopBruteForceContains(inv, p) }, nil},
+			c04Path{"reversed-loop.ContainsPoint", rev.ContainsPoint, nil},
+			c04Path{"reversed-loop.brute-force", func(p s2.Point) bool { return s2.VerifLoopBruteForceContains(rev, p) }, nil})
 	}
 	if ob := w2Realise(o, &c, 0, "Polygon"); ob != nil {
 		ob.poly.ContainsPoint(pts[0].p)
@@ -371,9 +384,9 @@ func opC04Tile(raw json.RawMessage, o *Out) {
 			// a single cell: the library's own constructor
 			l := s2.LoopFromCell(s2.CellFromCellID(emb.FromFaceIJ(sh.Face, c.G, sh.Pcs[0].P[0], sh.Pcs[0].P[1])))
 			m.paths = []c04Path{
-				{"LoopFromCell.ContainsPoint", l.ContainsPoint},
-				{"LoopFromCell.index-path", func(p s2.Point) bool { return s2.VerifLoopIndexContains(l, p) }},
-				{"LoopFromCell.brute-force", func(p s2.Point) bool { return s2.VerifLoopBruteForceContains(l, p) }},
+				{"LoopFromCell.ContainsPoint", l.ContainsPoint, nil},
+				{"LoopFromCell.index-path", func(p s2.Point) bool { return s2.VerifLoopIndexContains(l, p) }, nil},
+				{"LoopFromCell.brute-force", func(p s2.Point) bool { return s2.VerifLoopBruteForceContains(l, p) }, nil},
 			}
 		case len(m.loops) == 1:
 			m.paths, _ = c04LoopPaths(m.loops[0])
@@ -387,11 +400,10 @@ func opC04Tile(raw json.RawMessage, o *Out) {
 		desc += fmt.Sprintf("%v ", sh.Pcs)
 		members = append(members, m)
 	}
-	// the other five faces as whole-face loops (vertices every S / 2^(kv%3) units): the family tiles the sphere
-	step := S >> uint(c.KV%3)
-	if step < 1 {
-		step = 1
-	}
+	// the other five faces as whole-face loops with a vertex at every grid point, so that every
+	// edge on a face boundary is shared exactly with the members of the tiled face (a family
+	// with T-junctions does not share edges and is outside the property)
+	step := 1
 	for f := 0; f < 6; f++ {
 		if f == c.Face {
 			continue
